@@ -19,6 +19,7 @@ inductive Cred where
   | borrowedChain   -- first certificate: self-signed, CA flag set, the peer's own key; followed by the PUBLIC certificate of
                     -- a legitimate peer (which the peer holds no key for). TLS proves possession of the FIRST certificate's key only
   | validPlusCA     -- a valid leaf followed by the configured CA's own certificate (an ordinary full chain)
+  | hostTrusted     -- right name, in date, issued by a CA of the HOST's trust store that is not the configured CA
   | none
 deriving DecidableEq, Repr
 
@@ -92,6 +93,11 @@ def chainsToCA : Cred → Bool
   | .validPlusCA => true
   | _ => false
 
+/-- abstract X.509 verdict against the host's system roots (used by the client only when no CA file is configured) -/
+def chainsToSystem : Cred → Bool
+  | .hostTrusted => true
+  | _ => false
+
 def nameMatches : Cred → Bool
   | .wrongName => false
   | _ => true
@@ -107,7 +113,8 @@ def serverAdmits (s : ServerConf) (cred : Cred) : Bool :=
 /-- crypto/tls client side (configured roots): does the handshake complete with a server presenting `cred`? -/
 def clientAdmits (c : ClientConf) (cred : Cred) : Bool :=
   cred != .none &&
-  (c.insecureSkipVerify || (c.customRoots && chainsToCA cred && nameMatches cred))
+  (c.insecureSkipVerify || (c.customRoots && chainsToCA cred && nameMatches cred) ||
+   (!c.customRoots && chainsToSystem cred && nameMatches cred))   -- no CA file configured: RootCAs = nil = the host's roots
 
 def curVerifyMode : ClientAuth := .requireAndVerifyClientCert
 
